@@ -464,7 +464,8 @@ func (c *FnCtx) checkFrame(fr *Frame, rp retPoint) {
 		seen := map[[2]int]bool{}
 		var walk func(t *Term, guard *Term)
 		check := func(o *Term, guard *Term, same *Term) {
-			alts := []*Term{ts.Ge(o, fr.entryState.wm)}
+			// object 0 is nil: real stores to it are excluded by nilmap / nilptr obligations; havoc "stores" may name it
+			alts := []*Term{ts.Ge(o, fr.entryState.wm), ts.Eq(o, ts.Int(0))}
 			for _, mt := range ptrTargets {
 				if mt.heap == h {
 					alts = append(alts, ts.Eq(o, mt.obj))
@@ -473,7 +474,7 @@ func (c *FnCtx) checkFrame(fr *Frame, rp retPoint) {
 			if same != nil {
 				alts = append(alts, same)
 			}
-			c.addObl(rp.st, "frame-heap", h, ts.Implies(guard, ts.Or(alts...)), rp.pos, "write to "+h+" outside modifies and not fresh")
+			c.addObl(rp.st, "frame-heap", fmt.Sprintf("#%d %s", c.kindOrd["frame-heap"], h), ts.Implies(guard, ts.Or(alts...)), rp.pos, "write to "+h+" outside modifies and not fresh")
 		}
 		walk = func(t *Term, guard *Term) {
 			if t == ent || guard.IsFalse() || seen[[2]int{t.id, guard.id}] {
@@ -681,6 +682,7 @@ func (c *FnCtx) enterLoop(fr *Frame, h *ssa.BasicBlock, ord int, st *State) *Sta
 		var inv []*Term
 		seenO := map[int]bool{}
 		layered := false
+		assumed := false
 		for _, o := range objs {
 			if seenO[o.id] {
 				continue
@@ -692,7 +694,10 @@ func (c *FnCtx) enterLoop(fr *Frame, h *ssa.BasicBlock, ord int, st *State) *Sta
 			case wl.alloc[o.id]:
 				layered = true
 			default:
-				precise = false
+				// a target computed inside the loop: treated as an object allocated after loop entry; every
+				// such store in the body carries a "loop-frame" obligation that it really is (or is one of inv)
+				layered = true
+				assumed = true
 			}
 		}
 		_, es := srt.ArrParts()
@@ -704,6 +709,9 @@ func (c *FnCtx) enterLoop(fr *Frame, h *ssa.BasicBlock, ord int, st *State) *Sta
 			nh := ts.Fresh(fmt.Sprintf("lp%d!L!%s", ord, hname), srt)
 			c.layers[nh.id] = &layerInfo{wm: st.wm, old: old, except: inv}
 			out.heaps[hname] = nh
+			if assumed {
+				c.loopAssume = append(c.loopAssume, loopAssumption{fr: fr, head: h, heap: hname, wm: st.wm, except: inv})
+			}
 			if c.writeLog != nil {
 				// propagate to an enclosing dry run: same classification there
 				for _, o := range objs {
@@ -857,6 +865,8 @@ func (c *FnCtx) localValue(fr *Frame, st *State, lr *LocalRef) *Term {
 // execBlock runs the instructions of b; emit(succ, state) is called for each outgoing edge.
 func (c *FnCtx) execBlock(fr *Frame, b *ssa.BasicBlock, st *State, emit func(*ssa.BasicBlock, *State)) {
 	ts := c.eng.ts
+	c.blockStack = append(c.blockStack, blockRef{fr, b})
+	defer func() { c.blockStack = c.blockStack[:len(c.blockStack)-1] }()
 	for _, in := range b.Instrs {
 		switch x := in.(type) {
 		case *ssa.If:
